@@ -398,13 +398,14 @@ type argT struct {
 }
 
 type callT struct {
-	Script   *SE         `json:"script"`
-	JS       string      `json:"js"`
-	Invalid  bool        `json:"invalid_js,omitempty"`
-	Args     []argT      `json:"args"`
-	Odd      bool        `json:"odd_arg,omitempty"`
-	Node     int         `json:"node"`                // -1: javascript; >=0: javascript_with_context on that node
-	NodeKids [][2]string `json:"node_kids,omitempty"` // the node's children (name, text): enough to rebuild it
+	Script   *SE     `json:"script"`
+	JS       string  `json:"js"`
+	Invalid  bool    `json:"invalid_js,omitempty"`
+	Args     []argT  `json:"args"`
+	Odd      bool    `json:"odd_arg,omitempty"`
+	Node     int     `json:"node"`                // -1: javascript; >=0: javascript_with_context on that node
+	NodeKids []nspec `json:"node_kids,omitempty"` // the node's children: enough to rebuild it
+	nodeBad  string  // idr.JSONify2 of the node is not the JSON of the node's content
 	// filled while running
 	NodeID   int64  `json:"-"`
 	NodeJSON string `json:"node_json,omitempty"`
@@ -855,6 +856,23 @@ func genCall(r *vh.Rng, seenNames *[]string, o genOpts) *callT {
 		}
 	}
 	c.JS = c.Script.js()
+	if c.Node >= 0 && !nodeClash && r.Chance(0.25) {
+		// the node reached WITHOUT spelling the identifier: a computed property name, a property
+		// name passed in as an argument, a unicode-escaped identifier
+		undef := JV{K: "undef"}
+		switch r.Pick(3) {
+		case 0:
+			c.Script = &SE{K: "varor", X: "_node", A: &SE{K: "lit", V: &undef}}
+			c.JS = "this['_' + 'no' + 'de']"
+		case 1:
+			c.Script = &SE{K: "varor", X: "_node", A: &SE{K: "lit", V: &undef}}
+			c.Args = append(c.Args, argT{Name: "key9", Val: str("_node")})
+			c.JS = "this[key9]"
+		default:
+			c.Script = &SE{K: "arr", Es: []*SE{{K: "var", X: "_node"}, {K: "typeof", X: "_node"}}}
+			c.JS = "[_n\\u006fde, typeof _n\\u006fde]"
+		}
+	}
 	if o.malformed && r.Chance(0.03) {
 		c.Invalid = true
 		c.JS = c.JS + " ) ("
@@ -876,11 +894,16 @@ func runDirect(c *callT, nodes []*idr.Node) {
 	}()
 	if c.Node >= 0 {
 		n := nodes[c.Node]
-		if k, ok := nodeKids.Load(n); ok {
-			c.NodeKids = k.([][2]string)
-		}
 		c.NodeID = n.ID
 		c.NodeJSON = idr.JSONify2(n)
+		if k, ok := nodeKids.Load(n); ok {
+			c.NodeKids = k.([]nspec)
+			// the oracle's own rendering of the node's content, independent of idr.JSONify2
+			if mine := specJSON(c.NodeKids); mine != c.NodeJSON {
+				c.nodeBad = fmt.Sprintf("idr.JSONify2 of the context node is %s but the node's content is %s", c.NodeJSON, mine)
+				c.NodeJSON = mine
+			}
+		}
 		c.obsVal, c.obsErr = v21.JavaScriptWithContext(nil, n, c.JS, c.goArgs()...)
 	} else {
 		c.obsVal, c.obsErr = v21.JavaScript(nil, c.JS, c.goArgs()...)
@@ -899,6 +922,9 @@ func runDirect(c *callT, nodes []*idr.Node) {
 
 // judge evaluates the property oracle for one call on the implementation side.
 func judge(tbl *rtTable, c *callT) string {
+	if c.nodeBad != "" {
+		return c.nodeBad
+	}
 	if c.obsPanic != nil {
 		return fmt.Sprintf("call panicked: %v", c.obsPanic)
 	}
@@ -916,25 +942,108 @@ func judge(tbl *rtTable, c *callT) string {
 	return ""
 }
 
+// nspec describes an element node: a leaf (one text child) or an element with element children
+type nspec struct {
+	Name string  `json:"name"`
+	Leaf bool    `json:"leaf,omitempty"`
+	Text string  `json:"text,omitempty"`
+	Kids []nspec `json:"kids,omitempty"`
+}
+
 func mkNode(r *vh.Rng, label int) *idr.Node {
-	var kids [][2]string
+	var kids []nspec
 	for i, k := 0, r.Between(0, 3); i < k; i++ {
-		kids = append(kids, [2]string{r.PickStr("a", "b", "c", "dd"), genStr(r)})
+		kids = append(kids, nspec{Name: r.PickStr("a", "b", "c", "dd"), Leaf: true, Text: genStr(r)})
+	}
+	if r.Chance(0.4) {
+		// repeated children whose instances are themselves array-shaped (>= 2 identically named
+		// children), next to differently named siblings
+		group := func() nspec {
+			g := nspec{Name: "ship"}
+			for i, k := 0, r.Between(2, 3); i < k; i++ {
+				g.Kids = append(g.Kids, nspec{Name: "box", Leaf: true, Text: genStr(r)})
+			}
+			return g
+		}
+		var rep []nspec
+		for i, k := 0, r.Between(2, 3); i < k; i++ {
+			x := group()
+			if i > 0 && r.Chance(0.3) {
+				x = nspec{Name: "ship", Leaf: true, Text: genStr(r)}
+			}
+			if i > 0 && r.Chance(0.2) {
+				x.Kids = append(x.Kids, nspec{Name: "lid", Leaf: true, Text: "z"})
+			}
+			rep = append(rep, x)
+		}
+		p := r.Pick(len(kids) + 1)
+		kids = append(kids[:p:p], append(rep, kids[p:]...)...)
+		if r.Chance(0.8) {
+			kids = append(kids, nspec{Name: "id", Leaf: true, Text: fmt.Sprint(r.Pick(100))})
+		}
 	}
 	return buildNode(kids)
 }
 
-var nodeKids sync.Map // *idr.Node -> [][2]string
+var nodeKids sync.Map // *idr.Node -> []nspec
 
-func buildNode(kids [][2]string) *idr.Node {
-	root := idr.CreateNode(idr.ElementNode, "n")
-	for _, kv := range kids {
-		ch := idr.CreateNode(idr.ElementNode, kv[0])
-		idr.AddChild(ch, idr.CreateNode(idr.TextNode, kv[1]))
-		idr.AddChild(root, ch)
+func buildSpec(sp nspec) *idr.Node {
+	n := idr.CreateNode(idr.ElementNode, sp.Name)
+	if sp.Leaf {
+		idr.AddChild(n, idr.CreateNode(idr.TextNode, sp.Text))
+		return n
 	}
+	for _, k := range sp.Kids {
+		idr.AddChild(n, buildSpec(k))
+	}
+	return n
+}
+
+func buildNode(kids []nspec) *idr.Node {
+	root := buildSpec(nspec{Name: "n", Kids: kids})
 	nodeKids.Store(root, kids)
 	return root
+}
+
+// specValue is what the documentation says a node looks like as JSON: a leaf is its text; children
+// that all share one name (two or more of them) are an array; otherwise an object whose repeated
+// names collect their values, in order, into an array.  Written from the spec, not from marshal2.go.
+func specValue(sp nspec) interface{} {
+	if sp.Leaf {
+		return sp.Text
+	}
+	same := len(sp.Kids) > 1
+	for _, k := range sp.Kids {
+		if k.Name != sp.Kids[0].Name {
+			same = false
+		}
+	}
+	if same {
+		arr := []interface{}{}
+		for _, k := range sp.Kids {
+			arr = append(arr, specValue(k))
+		}
+		return arr
+	}
+	obj := map[string]interface{}{}
+	count := map[string]int{}
+	for _, k := range sp.Kids {
+		count[k.Name]++
+	}
+	for _, k := range sp.Kids {
+		if count[k.Name] > 1 {
+			cur, _ := obj[k.Name].([]interface{})
+			obj[k.Name] = append(cur, specValue(k))
+		} else {
+			obj[k.Name] = specValue(k)
+		}
+	}
+	return obj
+}
+
+func specJSON(kids []nspec) string {
+	b, _ := json.Marshal(specValue(nspec{Name: "n", Kids: kids}))
+	return string(b)
 }
 
 // ---- Coq case -----------------------------------------------------------------------------------------
@@ -2045,6 +2154,9 @@ func runConcurrentTransforms(o *vh.Opts, r *vh.Rng, sum *vh.Summary, cw *vh.Case
 		{Name: "f1", XP: "s", Call: &callT{Node: 0, Script: pair, JS: pair.js(), Args: []argT{{Name: "a", Val: str("k")}}}},
 		{Name: "f2", XP: "g", Call: &callT{Node: 0, Script: echo, JS: echo.js()}},
 		{Name: "f3", XP: "i", Call: &callT{Node: 0, Script: echo, JS: echo.js()}},
+		// a second and a third call on the SAME node (a one-entry memo is hit)
+		{Name: "f4", XP: ".", Call: &callT{Node: 0, Script: pair, JS: pair.js(), Args: []argT{{Name: "a", Val: str("k2")}}}},
+		{Name: "f5", XP: ".", Call: &callT{Node: 0, Script: echo, JS: "this['_' + 'node']"}},
 	}
 	schema := buildSchema(fields)
 	inputs := make([]string, G)
